@@ -62,7 +62,7 @@ func c25Inject(rt *rapid.T, front, s, label string) string {
 
 func TestC25(t *testing.T) {
 	rec := ev.New("C25", "requests with hostile bytes (SP, HTAB, CR, LF, NUL, ':', 0x7f, non-ASCII, CRLF+field, CRLF CRLF+request) placed in method, target, authority, header names or values are sent over HTTP/1.1, HTTP/2 (x/net framer+hpack over TLS) and SPDY/3.1 to an in-process BFE; the bytes every harness backend connection received are parsed by a strict RFC 7230 parser. History modes on a cluster with backend keep-alive: an upload answered early by the backend and then aborted/stalled by its client (RST, FIN, stall; Content-Length or chunked framing) followed by other clients' requests, and 4..16 concurrent requests with 4..24 distinctive fields each; every element of the byte stream of every backend connection must be one issued request with its own method, fields and body (a truncated one must be a prefix of its own client's bytes). non-trivial: a client-controlled token contains a byte outside token/field-vchar; distinct by frontend+request")
-	w := startWorld(t, 2, sys.Options{}, func(ports []int) *sys.DataConf {
+	w := startWorld(t, 3, sys.Options{}, func(ports []int) *sys.DataConf {
 		cl := sys.OneBackendCluster("c", ports[0])
 		cl.TimeoutResponseHeaderMs = 1500
 		cl.RetryMax = 0
@@ -72,7 +72,11 @@ func TestC25(t *testing.T) {
 		ck.TimeoutResponseHeaderMs = 1500
 		ck.RetryMax = 0
 		ck.MaxIdleConnsPerHost = 2
-		return sys.SimpleConf("v0", []sys.Cluster{cl, ck}, []sys.Rule{
+		// third cluster: two backends, failed attempts of body-less GETs may be retried
+		crt := sys.Cluster{Name: "crt", RetryMax: 1, RetryLevel: 1, TimeoutResponseHeaderMs: 1500, MaxIdleConnsPerHost: 2, Sub: []sys.SubCluster{{Name: "crt.sub", Weight: 100,
+			Backends: []sys.BackendSpec{{Name: "r1", Addr: "127.0.0.1", Port: ports[1], Weight: 10}, {Name: "r2", Addr: "127.0.0.1", Port: ports[2], Weight: 10}}}}}
+		return sys.SimpleConf("v0", []sys.Cluster{cl, ck, crt}, []sys.Rule{
+			{Cond: `req_path_prefix_in("/c25k/rt/", false)`, Cluster: "crt"},
 			{Cond: `req_path_prefix_in("/c25k/", false)`, Cluster: "cka"},
 			{Cond: `default_t()`, Cluster: "c"},
 		})
@@ -81,7 +85,7 @@ func TestC25(t *testing.T) {
 	n := 0
 	rapid.Check(t, func(rt *rapid.T) {
 		n++
-		if mode := rapid.SampledFrom([]string{"single", "single", "single", "single", "single", "single", "aborted-upload", "concurrent", "h2-upload-then-reset"}).Draw(rt, "mode"); mode != "single" {
+		if mode := rapid.SampledFrom([]string{"single", "single", "single", "single", "single", "single", "aborted-upload", "concurrent", "h2-upload-then-reset", "h2-upload-backend-fails"}).Draw(rt, "mode"); mode != "single" {
 			c25Sequence(rt, rec, w, n, mode, ka)
 			return
 		}
